@@ -153,7 +153,23 @@ theorem parenScan_left : ∀ (rest : Text) (i : Nat) (st : ParenScan) (l : Nat),
   | nil => intro i st l h; simp [parenScan] at h; exact Or.inl h
   | cons c rest ih =>
     intro i st l h
+    have pass : ∀ st' : ParenScan, (parenScan rest (i + 1) st').left = some l → st'.left = st.left →
+        st.left = some l ∨ (i ≤ l ∧ (c :: rest)[l - i]? = some '(') := by
+      intro st' h' he
+      rcases ih _ _ _ h' with h1 | ⟨h1, h2⟩
+      · exact Or.inl (by rw [← he]; exact h1)
+      · refine Or.inr ⟨by omega, ?_⟩
+        have : l - i = (l - (i + 1)) + 1 := by omega
+        rw [this]; simpa using h2
     simp only [parenScan] at h
+    split at h
+    · exact pass _ h rfl
+    split at h
+    · exact pass _ h rfl
+    split at h
+    · exact pass _ h rfl
+    split at h
+    · exact pass _ h rfl
     split at h
     · rename_i hc
       rcases ih _ _ _ h with h1 | ⟨h1, h2⟩
@@ -167,16 +183,8 @@ theorem parenScan_left : ∀ (rest : Text) (i : Nat) (st : ParenScan) (l : Nat),
         have : l - i = (l - (i + 1)) + 1 := by omega
         rw [this]; simpa using h2
     split at h
-    · rcases ih _ _ _ h with h1 | ⟨h1, h2⟩
-      · exact Or.inl h1
-      · refine Or.inr ⟨by omega, ?_⟩
-        have : l - i = (l - (i + 1)) + 1 := by omega
-        rw [this]; simpa using h2
-    · rcases ih _ _ _ h with h1 | ⟨h1, h2⟩
-      · exact Or.inl h1
-      · refine Or.inr ⟨by omega, ?_⟩
-        have : l - i = (l - (i + 1)) + 1 := by omega
-        rw [this]; simpa using h2
+    · exact pass _ h rfl
+    · exact pass _ h rfl
 
 theorem parenScan_right : ∀ (rest : Text) (i : Nat) (st : ParenScan) (r : Nat),
     (parenScan rest i st).right = some r → st.right = some r ∨ (i ≤ r ∧ rest[r - i]? = some ')') := by
@@ -185,13 +193,25 @@ theorem parenScan_right : ∀ (rest : Text) (i : Nat) (st : ParenScan) (r : Nat)
   | nil => intro i st r h; simp [parenScan] at h; exact Or.inl h
   | cons c rest ih =>
     intro i st r h
-    simp only [parenScan] at h
-    split at h
-    · rcases ih _ _ _ h with h1 | ⟨h1, h2⟩
-      · exact Or.inl h1
+    have pass : ∀ st' : ParenScan, (parenScan rest (i + 1) st').right = some r → st'.right = st.right →
+        st.right = some r ∨ (i ≤ r ∧ (c :: rest)[r - i]? = some ')') := by
+      intro st' h' he
+      rcases ih _ _ _ h' with h1 | ⟨h1, h2⟩
+      · exact Or.inl (by rw [← he]; exact h1)
       · refine Or.inr ⟨by omega, ?_⟩
         have : r - i = (r - (i + 1)) + 1 := by omega
         rw [this]; simpa using h2
+    simp only [parenScan] at h
+    split at h
+    · exact pass _ h rfl
+    split at h
+    · exact pass _ h rfl
+    split at h
+    · exact pass _ h rfl
+    split at h
+    · exact pass _ h rfl
+    split at h
+    · exact pass _ h rfl
     split at h
     · rename_i hc
       rcases ih _ _ _ h with h1 | ⟨h1, h2⟩
@@ -200,11 +220,7 @@ theorem parenScan_right : ∀ (rest : Text) (i : Nat) (st : ParenScan) (r : Nat)
       · refine Or.inr ⟨by omega, ?_⟩
         have : r - i = (r - (i + 1)) + 1 := by omega
         rw [this]; simpa using h2
-    · rcases ih _ _ _ h with h1 | ⟨h1, h2⟩
-      · exact Or.inl h1
-      · refine Or.inr ⟨by omega, ?_⟩
-        have : r - i = (r - (i + 1)) + 1 := by omega
-        rw [this]; simpa using h2
+    · exact pass _ h rfl
 
 theorem indicesOfParentheses_bounds {s : Text} {l r : Nat}
     (h : indicesOfParentheses s = .ok (some (l, r))) : l < r ∧ r < s.length := by
